@@ -123,7 +123,12 @@ pub(super) fn decrypt_packet_body(
 
     if crypto_update {
         // Validate incoming key update
-        if number <= rx_packet || prev_crypto.is_some_and(|x| x.update_unacked) {
+        // `rx_packet` is 0 until the first packet of the space has been authenticated: a peer
+        // whose very first 1-RTT packet (number 0) already uses the next key phase is legitimate
+        let received_any = !spaces[space].dedup.is_empty();
+        if (received_any && number <= rx_packet)
+            || prev_crypto.is_some_and(|x| x.update_unacked)
+        {
             return Err(Some(TransportError::KEY_UPDATE_ERROR("")));
         }
     }
